@@ -80,6 +80,11 @@ class Result:
         self.monitors = {}  # name -> events observed
         self.extra = {}  # free-form counters (summed when numeric)
         self.inconclusive = None  # reason string
+        self.observed = {}  # a few things the monitors actually saw in this case (kept for sampled cases)
+
+    def obs(self, key, value):
+        if len(self.observed) < 12:
+            self.observed[key] = value
 
     def mon(self, name, n=1):
         self.monitors[name] = self.monitors.get(name, 0) + n
@@ -98,6 +103,7 @@ class Result:
             "monitors": self.monitors,
             "extra": self.extra,
             "inconclusive": self.inconclusive,
+            "observed": self.observed,
         }
 
 
@@ -207,6 +213,7 @@ def shard_main(prop, tier, seed, shard, nshards, outpath, ncases, deadline_s):
                 r["case"] = case
             else:
                 r["case_hash"] = stable_hash(case)[:12]
+                r.pop("observed", None)
             out.write(json.dumps(r, default=str) + "\n")
             out.flush()
     return 0
@@ -375,7 +382,7 @@ def aggregate(mod, prop, tier, seed, results, shard_problems, wall, ncases):
             else:
                 violations.append((r, v))
         if "case" in r and len(samples) < 3 and not r.get("violations"):
-            samples.append(_sample_trim({"idx": r["idx"], "case": r["case"], "sig": r.get("sig")}))
+            samples.append(_sample_trim({"idx": r["idx"], "case": r["case"], "sig": r.get("sig"), "observed": r.get("observed"), "monitors": r.get("monitors")}, 9000))
 
     floors = b.get("floors", {})
     unmet = {k: (monitors.get(k, 0), v) for k, v in floors.items() if monitors.get(k, 0) < v}
